@@ -217,7 +217,7 @@ pub fn run(mut ctx: Ctx) -> ! {
         Part::new(
             "random_dags",
             "random DAGs of 1-7 items (quick; 1-9 thorough), dependency lists of 0-4 entries (earlier item / repeat of the previous entry / never-delivered item), delivery = generated permutation with some items skipped and up to 3 duplicate deliveries, ready queue drained at generated points and at the end; non-trivial = graph with a diamond or a repeated dependency entry in which some child is delivered before one of its parents",
-            300,
+            600,
             8_000,
         )
         .min_nontrivial(0.25)
